@@ -14,6 +14,9 @@ A case:
      ["mloadstore", src, dst]          MLOAD src ; MSTORE dst
      ["call", kind, aloc, asize, [basic ops], roff, rsize, oloc, osize, end]
                                        kind: STATICCALL | CALL | DELEGATECALL | CALLCODE; end: RETURN | REVERT
+     ["create", kind, loc, [basic ops], roff, rsize, end]   (at most one per case) kind: CREATE | CREATE2; the init code
+                                       (the basic ops, then RETURN / REVERT of mem[roff, roff + rsize)) is first written to
+                                       memory at loc with MSTOREs (part of the instruction sequence), then run by CREATE
   fork     : optional {"at": k, "alt": [basic ops]}: after ops[:k] a JUMPI on CALLVALUE (symbolic, unrelated to any byte
              sequence) forks the path; one path continues with ops[k:], the other runs alt.  Each path's memory must be
              what its own instruction sequence gives (the fork copies the memory).
@@ -108,6 +111,25 @@ def basic_items(op):
     raise ValueError(k)
 
 
+def init_code(op):
+    _, kind, loc, body, roff, rsize, end = op
+    items = []
+    for b in body:
+        items += basic_items(b)
+    return asm.assemble(items + [_push(rsize), _push(roff), end])
+
+
+def expand(op):
+    """a create op -> the MSTOREs that put its init code into memory + the creation itself"""
+    if op[0] != "create":
+        return [op]
+    _, kind, loc, body, roff, rsize, end = op
+    ic = init_code(op)
+    padded = ic + bytes(-len(ic) % 32)
+    out = [["mstore", loc + k, ["c", list(padded[k:k + 32])]] for k in range(0, len(padded), 32)]
+    return out + [["create_raw", kind, loc, len(ic), body, roff, rsize, end]]
+
+
 def build(case):
     """-> (accounts {addr: bytes}, callee code per call op index)"""
     accounts = {EXT: bytes(case["ext"]["code"]), EMPTY_ACCT: b""}
@@ -118,6 +140,14 @@ def build(case):
     for i, op in enumerate(case["ops"]):
         if fork and fork["at"] == i:
             items += ["CALLVALUE", ("ref", "alt"), "JUMPI"]
+        if op[0] == "create":
+            for e in expand(op):
+                if e[0] == "create_raw":
+                    _, kind, loc, size, body, roff, rsize, end = e
+                    items += ([_push(0x5A17)] if kind == "CREATE2" else []) + [_push(size), _push(loc), _push(0), kind, "POP"]
+                else:
+                    items += basic_items(e)
+            continue
         if op[0] == "call":
             _, kind, aloc, asize, body, roff, rsize, oloc, osize, end = op
             addr = CALLEE0 + ncall
@@ -150,12 +180,13 @@ def build(case):
 
 
 def variants(case):
-    """the instruction sequences of the paths: [(index in case["ops"] or None, op)]"""
-    main = list(enumerate(case["ops"]))
-    fork = case.get("fork")
-    if not fork:
-        return [main]
-    return [main, main[:fork["at"]] + [(None, b) for b in fork["alt"]]]
+    """the instruction sequences of the paths: [(index in case["ops"] or None, op)] (create ops expanded)"""
+    main = [(i, e) for i, op in enumerate(case["ops"]) for e in expand(op)]
+    if case.get("fork"):
+        k = case["fork"]["at"]
+        pre = [(i, e) for i, e in main if i < k]
+        return [main, pre + [(None, b) for b in case["fork"]["alt"]]]
+    return [main]
 
 
 # ----------------------------------------------------------------- independent spec (EVM semantics, flat lists)
@@ -187,12 +218,44 @@ def spec_basic(op, mem, rd, cd, codeb, case):
     raise ValueError(k)
 
 
-def spec_run(case, accounts, callee_code, ops=None):
+def spec_init_returns(op, mem, case):
+    """what the init code returns / reverts with (None: it halts exceptionally); its calldata is EMPTY, its code is
+    mem[loc, loc + size)"""
+    _, kind, loc, size, body, roff, rsize, end = op
+    initc = read_padded(mem, loc, size)
+    cmem = []
+    for b in body:
+        cmem, halted = spec_basic(b, cmem, [], [], initc, case)
+        if halted:
+            return None
+    return read_padded(cmem, roff, rsize)
+
+
+def spec_created(case, accounts, callee_code):
+    """-> None (no creation in the case) | ("deployed", bytes) | ("nothing",)"""
+    mem, rd = [], []
+    cd = calldata_codes(case)
+    for i, op in variants(case)[0]:
+        if op[0] == "create_raw":
+            d = spec_init_returns(op, mem, case)
+            return ("deployed", d) if (d is not None and op[7] == "RETURN") else ("nothing",)
+        r = spec_run(case, accounts, callee_code, ops=[(i, op)], start=(mem, rd))
+        if r[0] == "halt":
+            return None
+        mem, rd = r[1], r[2]
+    return None
+
+
+def spec_run(case, accounts, callee_code, ops=None, start=None):
     """-> ("ok", mem, rd) | ("halt",)"""
     cd = calldata_codes(case)
-    mem, rd = [], []
+    mem, rd = start if start is not None else ([], [])
     this_code = list(accounts[THIS])
-    for i, op in (ops if ops is not None else enumerate(case["ops"])):
+    for i, op in (ops if ops is not None else variants(case)[0]):
+        if op[0] == "create_raw":
+            d = spec_init_returns(op, mem, case)
+            rd = d if (d is not None and op[7] == "REVERT") else []
+            continue
         if op[0] == "call":
             _, kind, aloc, asize, body, roff, rsize, oloc, osize, end = op
             cmem, crd, halted = [], [], False
@@ -252,7 +315,7 @@ def enc_basic(op, cd, case):
 
 def enc_case(case, accounts, callee_code, ops=None):
     cd = calldata_codes(case)
-    ops = list(ops) if ops is not None else list(enumerate(case["ops"]))
+    ops = list(ops) if ops is not None else variants(case)[0]
     segs = [s for s in case["calldata"] if (len(s[1]) if s[0] == "c" else s[2]) > 0]
     out = [len(segs)]
     for seg in segs:
@@ -263,7 +326,13 @@ def enc_case(case, accounts, callee_code, ops=None):
     out += enc_bytes_bvec(accounts[THIS])
     out.append(len(ops))
     for i, op in ops:
-        if op[0] == "call":
+        if op[0] == "create_raw":
+            _, kind, loc, size, body, roff, rsize, end = op
+            out += [7, loc, size, len(body)]
+            for b in body:
+                out += enc_basic(b, None, case)
+            out += [roff, rsize, 1 if end == "REVERT" else 0]
+        elif op[0] == "call":
             _, kind, aloc, asize, body, roff, rsize, oloc, osize, end = op
             out += [6] + enc_bytes_bvec(callee_code[i]) + [aloc, asize, len(body)]
             # inside the callee, calldata is the caller's memory window: its byte codes are only known by running
@@ -276,6 +345,33 @@ def enc_case(case, accounts, callee_code, ops=None):
     if case.get("end"):
         out += [case["end"][1], case["end"][2]]
     return out
+
+
+def enc_created(case, accounts, callee_code):
+    """input of the c07_created entry: the instructions before the creation, then the creation (None: no creation)"""
+    ops = variants(case)[0]
+    k = next((j for j, (_, op) in enumerate(ops) if op[0] == "create_raw"), None)
+    if k is None:
+        return None
+    c2 = dict(case)
+    c2.pop("end", None)
+    pre = enc_case(c2, accounts, callee_code, ops[:k])
+    _, kind, loc, size, body, roff, rsize, end = ops[k][1]
+    out = pre + [loc, size, len(body)]
+    for b in body:
+        out += enc_basic(b, None, case)
+    return out + [roff, rsize]
+
+
+def dec_created(case, res):
+    """result of the c07_created entry -> ("deployed", codes) | ("nothing",) | ("exc", text); a REVERT of the init code
+    deploys nothing (the model entry computes what the init code hands back)"""
+    op = next(op for op in case["ops"] if op[0] == "create")
+    if not res or res[0] not in (0, 1):
+        return ("exc", f"model: {res}")
+    if res[0] == 1 or op[6] == "REVERT":
+        return ("nothing",)
+    return ("deployed", res[2:2 + res[1]])
 
 
 def dec_model(res):
@@ -385,12 +481,30 @@ def impl_run(case):
             msize = top.value if top is not None and getattr(top, "is_concrete", False) else (int(str(top)) if top is not None else None)
             od = ex.context.output.data
             out_items = layout(od)[1] if (end and od is not None) else []
-            return ("ok", len(mem), lay, flat, rd_items, msize, out_items)
+            known = set(accounts)
+            new = []
+            for a, contract in ex.code.items():
+                if not (z3.is_bv_value(a) and a.as_long() in known):
+                    new.append(layout(contract._code)[1])
+            return ("ok", len(mem), lay, flat, rd_items, msize, out_items, new)
         except Exception as e:  # noqa: BLE001
             return ("exc", f"observation failed: {type(e).__name__}: {e}"[:200])
 
     res = [observe(p) for p in paths]
     return res if case.get("fork") else res[0]
+
+
+def compare_created(impl, want, what):
+    """impl: result of the main path; want: None | ("deployed", codes) | ("nothing",)"""
+    results = impl if isinstance(impl, list) else [impl]
+    if want is None or any(r[0] != "ok" for r in results):
+        return None
+    new = [c for r in results for c in r[7]]     # only the main sequence contains the creation
+    if want[0] == "nothing":
+        return None if not new else {"observable": "deployed-code", "implementation": str(new)[:200], what: "nothing deployed"}
+    if len(new) != 1 or not same_items(want[1], new[0]):
+        return {"observable": "deployed-code", "implementation": str(new)[:300], what: str(want[1])[:300]}
+    return None
 
 
 def same_items(ref_codes, items):
@@ -446,7 +560,7 @@ def compare_spec1(case, impl, spec):
         return None
     if impl[0] == "halt":
         return {"observable": "halts", "implementation": impl[1], "spec": "runs to STOP"}
-    _, ln, lay, flat, rd, msize, outd = impl
+    _, ln, lay, flat, rd, msize, outd, _new = impl
     if ln != len(spec[1]):
         return {"observable": "memory-length", "implementation": ln, "spec": len(spec[1])}
     if not same_items(spec[1], flat):
@@ -510,7 +624,7 @@ def compare_model1(case, impl, model):
         return {"observable": "halts", "implementation": impl[:2], "model": model[0]}
     if impl[0] == "halt":
         return None
-    _, ln, lay, flat, rd, msize, outd = impl
+    _, ln, lay, flat, rd, msize, outd, _new = impl
     _, mln, mlay, mflat, mrd, mmsize, moutd = model
     if ln != mln:
         return {"observable": "memory-length", "implementation": ln, "model": mln}
@@ -580,7 +694,19 @@ def gen_case(r, tag="mem"):
     memlen, rdlen = 0, 0
     halted = False
     for _ in range(r.randint(1, 7)):
-        if r.random() < 0.22:
+        if not any(o[0] == "create" for o in case["ops"]) and r.random() < 0.1:
+            body = []
+            cm = 0
+            for _ in range(r.randint(0, 3)):
+                b = gen_basic(r, True, 0, 0, cm)
+                if b[0] == "retcopy" and r.random() < 0.8:
+                    b = ["retcopy", b[1], 0, 0]
+                body.append(b)
+                cm = max(cm, _end(b))
+            op = ["create", r.choice(["CREATE", "CREATE", "CREATE2"]), r.choice(GRID + [memlen]), body,
+                  r.choice([0, 1, 2, 31, max(0, cm - 4)]), r.choice([0, 1, 3, 4, 32, 33, cm]), r.choice(["RETURN", "RETURN", "REVERT"])]
+            rdlen = op[5] if op[6] == "REVERT" else 0
+        elif r.random() < 0.22:
             body = []
             cm = 0
             for _ in range(r.randint(0, 3)):
@@ -605,7 +731,7 @@ def gen_case(r, tag="mem"):
         case["end"] = [r.choice(["RETURN", "RETURN", "REVERT"]), r.choice(GRID + [max(0, memlen - 3), memlen]), r.choice(SIZES)]
     # a path fork (JUMPI on the symbolic CALLVALUE), often while the memory is still empty
     if r.random() < 0.35:
-        first_ret = next((i for i, o in enumerate(case["ops"]) if o[0] == "retcopy"), len(case["ops"]))   # only RETURNDATACOPY can halt the frame: fork before it
+        first_ret = next((i for i, o in enumerate(case["ops"]) if o[0] in ("retcopy", "create")), len(case["ops"]))   # only RETURNDATACOPY can halt the frame: fork before it (and before a creation: one new account per case)
         k = r.choice([0, 0, r.randint(0, first_ret)])
         alt = [gen_basic(r, False, cdlen, 0, 0) for _ in range(r.randint(1, 3))]
         alt = [b for b in alt if b[0] != "retcopy"] or [["mstore8", 3, ["c", 0x7F]]]
@@ -627,6 +753,8 @@ def _end(op):
         return op[2] + 32
     if k == "call":
         return op[7] + min(op[8], op[6]) if min(op[8], op[6]) else 0
+    if k == "create":
+        return op[2] + (len(init_code(op)) + 31) // 32 * 32
     return 0
 
 
@@ -677,12 +805,30 @@ CORPUS += [
 ]
 
 
+CORPUS += [
+    # a creation: the init code copies its (empty) calldata and its own code, sets a byte and returns the runtime code
+    {"tag": "mem-corpus", "calldata": [["c", [1, 2, 3, 4, 5, 6, 7, 8]]], "ext": {"code": [0xE0 + i for i in range(12)]},
+     "ops": [["copy", "cd", 0, 0, 8],
+             ["create", "CREATE", 32, [["copy", "cd", 0, 0, 4], ["copy", "code", 4, 1, 40], ["mstore8", 2, ["c", 0x5B]]], 1, 40, "RETURN"],
+             ["retcopy", 0, 0, 0], ["mstore8", 1, ["c", 7]]]},
+    {"tag": "mem-corpus", "calldata": [["c", [1, 2, 3]]], "ext": {"code": [0xE0 + i for i in range(12)]},
+     "ops": [["create", "CREATE2", 5, [["copy", "code", 0, 30, 8], ["copy", "cd", 3, 0, 2]], 0, 8, "REVERT"], ["retcopy", 100, 2, 6]]},
+    {"tag": "mem-corpus", "calldata": [["c", [1, 2, 3]]], "ext": {"code": [0xE0 + i for i in range(12)]},
+     "ops": [["create", "CREATE", 0, [["retcopy", 0, 1, 0]], 0, 8, "RETURN"], ["retcopy", 0, 0, 0]]},
+]
+
+
 def gen_cases(r, n):
     return list(CORPUS) + [gen_case(r) for _ in range(n)]
 
 
 def classify(case):
     kinds = set()
+    for op in case["ops"]:
+        if op[0] == "create":
+            kinds.add("create-" + op[1] + "-" + op[6])
+            for b in op[3]:
+                kinds.add("init-" + (b[0] if b[0] != "copy" else "copy-" + b[1]))
     if case.get("end"):
         kinds.add("ends-with-" + case["end"][0])
     if case.get("fork"):
